@@ -1190,6 +1190,7 @@ def run(ctx):
     ctx.proof_stage()
     if not ok:
         return
+    lib.sweep_tmp("vh-c01-")         # directories of harness processes that were killed by their watchdog in earlier runs
     recursion_stage(ctx)
     hot_stage(ctx)
     explore_inproc(ctx)
